@@ -261,6 +261,12 @@ const DimensionReductionMethod* method_of(const std::string& m)
         {"lmds", &LandmarkMultidimensionalScaling},
         {"kpca", &KernelPrincipalComponentAnalysis},
         {"pca", &PrincipalComponentAnalysis},
+        {"spe", &StochasticProximityEmbedding},
+        {"rp", &RandomProjection},
+        {"fa", &FactorAnalysis},
+        {"tsne", &tDistributedStochasticNeighborEmbedding},
+        {"ms", &ManifoldSculpting},
+        {"passthru", &PassThru},
     };
     auto it = table.find(m);
     return it == table.end() ? nullptr : it->second;
@@ -404,7 +410,9 @@ std::string run_case(std::map<std::string, std::string>& f)
                                     num_neighbors = (IndexType)k, target_dimension = (IndexType)d,
                                     check_connectivity = true, gaussian_kernel_width = (ScalarType)width,
                                     diffusion_map_timesteps = (IndexType)2,
-                                    landmark_ratio = (ScalarType)((double)L / N));
+                                    landmark_ratio = (ScalarType)((double)L / N), max_iteration = (IndexType)geti("it", 20),
+                                    sne_perplexity = (ScalarType)std::min(3.0, (N - 1) / 3.0 - 0.01),
+                                    sne_theta = (ScalarType)0.5);
             g_pre = DenseMatrix();
             g_nobs = 0;
             verif_eigen_observer::get() = observer;
@@ -493,7 +501,12 @@ std::string run_case(std::map<std::string, std::string>& f)
         }
     }
     std::ostringstream out;
-    out << "ok thr=" << g_seen.count() << " h=";
+    out << "ok thr=" << g_seen.count();
+#ifdef C15_EMB
+    if (r == "emb")
+        out << " nobs=" << g_nobs; // eigenproblems seen by the observer hook in the last repetition
+#endif
+    out << " h=";
     for (size_t i = 0; i < hashes.size(); i++)
         out << (i ? "," : "") << std::hex << hashes[i] << std::dec;
     if (!values.empty())
